@@ -3,6 +3,7 @@
 package sctp
 
 import (
+	"encoding/binary"
 	"math"
 	"time"
 )
@@ -247,3 +248,149 @@ func vh_C19_L3_restart_resets_backoff() {
 	t.close()
 	vcover("end")
 }
+
+// ---- C19.L6: the delayed-ack timer under every order of start/stop/expire/deliver/close:
+// a started timer that is left alone calls onAckTimeout exactly once, when the callback of
+// its current arming runs; a stopped, re-armed or closed one never delivers a stale
+// callback; the observer runs without the timer's mutex held.
+
+type vAckObserver struct {
+	t        *ackTimer
+	timeouts int
+	heldInCb bool
+}
+
+func (o *vAckObserver) onAckTimeout() {
+	if o.t != nil && vMutexHeldNative(&o.t.mutex) {
+		o.heldInCb = true
+	}
+	o.timeouts++
+}
+
+func vh_C19_L6_ack_timer_interleavings() {
+	obs := &vAckObserver{}
+	t := newAckTimer(obs)
+	obs.t = t
+	started, closed, armed := false, false, false
+	inflight := 0      // expired callbacks that have not run yet
+	liveInflight := -1 // position of the one that belongs to the current arming, -1 if none
+	exp := 0
+	steps := 6
+	if vtier() > 0 {
+		steps = 8
+	}
+	for i := 0; i < steps; i++ {
+		switch vPick(5) {
+		case 0:
+			ok := t.start()
+			vassert(ok == (!started && !closed), "start succeeds iff the timer is stopped and not closed")
+			if ok {
+				started, armed = true, true
+				liveInflight = -1
+				vassert(vTimerArmedNative(t.timer), "start arms the timer")
+			}
+		case 1:
+			t.stop()
+			if started {
+				started, armed = false, false
+				liveInflight = -1
+			}
+		case 2: // the runtime timer expires
+			if t.timer.Stop() {
+				vassert(armed, "runtime timer armed only when the model says so")
+				inflight++
+				liveInflight = inflight - 1
+				armed = false
+			} else {
+				vassert(!armed, "model says armed but the runtime timer is not")
+			}
+		case 3: // an expired callback runs
+			if inflight > 0 {
+				live := started && liveInflight == 0
+				inflight--
+				if liveInflight >= 0 {
+					liveInflight--
+				}
+				t.timeout()
+				if live {
+					exp++
+					started = false
+				}
+			}
+		case 4:
+			t.close()
+			closed, started, armed = true, false, false
+			liveInflight = -1
+			vassert(!t.start(), "start after close is refused")
+		}
+		vassert(obs.timeouts == exp, "onAckTimeout is called exactly for the expiry of the current arming (never lost, never stale)")
+		vassert(t.isRunning() == started, "running state equals model")
+		vassert(!obs.heldInCb, "the observer runs without the timer's mutex held")
+	}
+	vobserve("timeouts", uint64(obs.timeouts))
+	vcover("end")
+}
+
+// ---- C19.L7: the on-demand heartbeat. One side asks for a heartbeat; the request goes on
+// the wire, the peer answers it echoing the information, and the answer yields a round-trip
+// sample equal to the time since the request was built.
+func vh_C19_L7_active_heartbeat_roundtrip() {
+	a, b := vPair(vAssocOpts{pickTSN: true})
+	a.ActiveHeartbeat()
+	var info []byte
+	nHB := 0
+	for _, raw := range vWriterWake(a) {
+		p := vDecode(raw)
+		vassert(p != nil, "request decodes")
+		for _, c := range p.chunks {
+			if hb, ok := c.(*chunkHeartbeat); ok {
+				nHB++
+				vassert(len(hb.params) == 1, "one information parameter")
+				if hi, ok := hb.params[0].(*paramHeartbeatInfo); ok {
+					info = hi.heartbeatInformation
+				}
+			}
+		}
+		vInbound(b, raw)
+	}
+	vassert(nHB == 1 && len(info) == 8, "the heartbeat request goes on the wire with its timestamp")
+	nAck := 0
+	for _, raw := range vWriterWake(b) {
+		p := vDecode(raw)
+		vassert(p != nil, "answer decodes")
+		for _, c := range p.chunks {
+			if ack, ok := c.(*chunkHeartbeatAck); ok {
+				nAck++
+				vassert(len(ack.params) == 1, "the answer carries the information")
+				if hi, ok := ack.params[0].(*paramHeartbeatInfo); ok {
+					vassert(vBytesEq(hi.heartbeatInformation, info), "the information is echoed unchanged")
+				}
+			}
+		}
+		vInbound(a, raw)
+	}
+	vassert(nAck == 1, "the peer answers the heartbeat")
+	vassert(a.SRTT() > 0, "the answer yields a round-trip sample")
+	vcover("end")
+}
+
+// C19.L7b: the sample taken from a heartbeat answer is the elapsed time, in milliseconds
+// with its fraction, for every age of the timestamp up to 2 ms (32 ns steps).
+func vh_C19_L7_heartbeat_sample_is_elapsed_time() {
+	vStub("fineclock")
+	a, _ := vNewAssoc()
+	d := uint32(nondetU16()) << 5 // age of the timestamp in ns: 0..2.1 ms in steps of 32 ns
+	sent := vTimeAgo(time.Duration(d))
+	buf := make([]byte, 8)
+	binary.BigEndian.PutUint64(buf, uint64(sent.UnixNano()))
+	ack := &chunkHeartbeatAck{params: []param{&paramHeartbeatInfo{heartbeatInformation: buf}}}
+	vassert(vDeliver(a, ack) == nil, "HEARTBEAT-ACK is never fatal")
+	ms := float64(d) / 1e6
+	got := a.SRTT()
+	vassert(got >= ms && got <= ms+5, "the first sample becomes SRTT: the elapsed time in milliseconds, fraction included")
+	vcover("end")
+}
+
+// C19.L3c: data is retransmitted for as long as the association lives: T3 has no retry
+// limit and keeps running over ten consecutive expiries (same obligation as C02.L5).
+func vh_C19_L3_data_retransmitted_forever() { vh_C02_L5_t3_never_gives_up() }
